@@ -40,7 +40,11 @@ func (n *MixedValueNode) AddConstraint(c constraint.Constraint) {
 	switch t := c.(type) {
 	case *constraint.TypeConstraint:
 		n.addTypeConstraint(t)
-		n.types = []string{t.Bytes().String()}
+		if t.Bytes().Unquote().String() != json.TypeMixed.String() || len(n.types) == 0 {
+			// `@a | @b // {type: "mixed"}` repeats what the choice already says:
+			// the names the choice gave stay.
+			n.types = []string{t.Bytes().String()}
+		}
 
 	case *constraint.Or:
 		n.addOrConstraint(t)
